@@ -35,7 +35,7 @@ CFG = {
 }
 META = {
     "technique": "Lean 4 proof over a method table regenerated from the source (go/ssa + CHA reachability), tied to the running node by a differential harness",
-    "text": "no_signing_unless_opted_in, default_env_exposes_no_signer, opt_in_is_per_transport, only_the_opted_transport_signs, opt_in_enables are proved by "
+    "text": "no_signing_unless_opted_in(_raw/_nonclique/_anychain/_builtin_networks), empty_value_is_off, default_env_exposes_no_signer, opt_in_is_per_transport, only_the_opted_transport_signs, opt_in_enables are proved by "
             "kernel evaluation over the regenerated table of every registered RPC method; every run regenerates the table, re-proves them, starts the real node "
             "under all 32 environments on all four transports, requires the registered callbacks to equal the model's exposed sets and calls every method "
             "observing keystore signatures directly.",
